@@ -9,7 +9,7 @@
 (*                  without white space before it (the annex allows white  *)
 (*                  space between any two tokens; the canonical spelling   *)
 (*                  puts exactly one blank wherever g is not set)          *)
-(*   ID / IDg       a fresh identifier x1, x2, ... (pushed as a value)     *)
+(*   ID / IDg       a fresh identifier IdNames[1], IdNames[2], ... (pushed as a value)     *)
 (*   L(k) / Lg(k)   a literal of kind k, drawn round-robin from LitPool[k] *)
 (*                  (pushed: its denoted value)                            *)
 (*   N(nt)          non-terminal                                           *)
@@ -41,52 +41,70 @@ PV(s)  == P(V(s))
 Pr(l, c, r) == [l |-> l, c |-> c, r |-> r]
 Eps == Pr("", 0, <<>>)
 
-GenNames == {"x" \o ToStr : ToStr \in {"1","2","3","4","5","6","7","8","9","10","11","12","13","14","15","16","17","18",
-             "19","20","21","22","23","24","25","26","27","28","29","30","31","32","33","34","35","36","37","38","39","40"}}
+\* the identifiers of a sentence, in order of appearance: together they use every letter, every digit and the underscore
+IdNames == <<"abc1", "def2", "ghi3", "jkl4", "mno5", "pqr6", "stu7", "vwx8", "yza9", "bcd10", "e_f11", "gh_12", "ijk13", "lmn14", "opq15", "rst16", "uvw17", "xyz18", "Abc19", "dEf20", "ghI21", "Jkl_22", "mn0p23", "q_r_s24", "tuv25", "wxy26", "zab27", "cde28", "fgh29", "ijkl30", "mnop31", "qrst32", "uvwx33", "yzab34", "cdef35", "g1h36", "i2j37", "k3l38", "m4n39", "o5p40">>
+GenNames == {IdNames[i] : i \in 1..Len(IdNames)}
 
 (* Literal pool: <<spelling, denoted value>>.  Values are strings / tuples of strings (exact, no machine
    arithmetic): integers as decimal digit strings, durations as whole nanoseconds, ... *)
 Int(t, v)  == <<"Int", V(t), V(v)>>
 Real(t, v) == <<"Real", V(t), V(v)>>
 Dt(y, mo, d, h, mi, sec) == <<"Dt", V(y), V(mo), V(d), V(h), V(mi), V(sec), V("0")>>
+DtF(y, mo, d, h, mi, sec, fr) == <<"Dt", V(y), V(mo), V(d), V(h), V(mi), V(sec), V(fr)>>
 Addr(l, sz, a) == <<"Addr", V(l), V(sz), a>>
 LitPool == [
   int  |-> << <<"7", Int("-", "7")>>, <<"1_000", Int("-", "1000")>>, <<"16#FF", Int("-", "255")>>,
               <<"0", Int("-", "0")>>, <<"2#1010", Int("-", "10")>>, <<"8#17", Int("-", "15")>> >>,
   uint |-> << <<"3", V("3")>>, <<"10", V("10")>>, <<"42", V("42")>> >>,
-  pint |-> << <<"5", <<"SInt", V("5")>> >>, <<"+9", <<"SInt", V("9")>> >>, <<"0", <<"SInt", V("0")>> >> >>,
+  pint |-> << <<"5", <<"SInt", V("5")>> >>, <<"+9", <<"SInt", V("9")>> >>, <<"0", <<"SInt", V("0")>> >>, <<"1_0", <<"SInt", V("10")>> >> >>,
   nint |-> << <<"-2", <<"SInt", V("-2")>> >>, <<"-10", <<"SInt", V("-10")>> >> >>,
   \* positive values first: the first subrange of a declaration has positive bounds, later ones a negative bound
   sint |-> << <<"5", <<"SInt", V("5")>> >>, <<"+9", <<"SInt", V("9")>> >>, <<"0", <<"SInt", V("0")>> >>, <<"-2", <<"SInt", V("-2")>> >> >>,
-  tint |-> << <<"INT#5", Int("INT", "5")>>, <<"UDINT#16#10", Int("UDINT", "16")>>, <<"SINT#-3", Int("SINT", "-3")>> >>,
+  tint |-> << <<"INT#5", Int("INT", "5")>>, <<"UDINT#16#10", Int("UDINT", "16")>>, <<"SINT#-3", Int("SINT", "-3")>>,
+               <<"DINT#+6", Int("DINT", "6")>>, <<"USINT#8#17", Int("USINT", "15")>>, <<"LINT#2#101", Int("LINT", "5")>>,
+               <<"ULINT#1_0", Int("ULINT", "10")>>, <<"UINT#0", Int("UINT", "0")>> >>,
   real |-> << <<"1.5", Real("-", "1.5")>>, <<"2.5E3", Real("-", "2500.0")>>, <<"REAL#0.25", Real("REAL", "0.25")>>,
-              <<"1.0e-2", Real("-", "0.01")>> >>,
+              <<"1.0e-2", Real("-", "0.01")>>, <<"-1.5", Real("-", "-1.5")>>, <<"LREAL#-2.5", Real("LREAL", "-2.5")>>,
+              <<"+0.5", Real("-", "0.5")>>, <<"1_0.2_5", Real("-", "10.25")>> >>,
   bool |-> << <<"TRUE", <<"Bool", V("TRUE")>> >>, <<"FALSE", <<"Bool", V("FALSE")>> >>, <<"BOOL#TRUE", <<"Bool", V("TRUE")>> >>,
               <<"BOOL#FALSE", <<"Bool", V("FALSE")>> >> >>,
   \* incl. strings whose content begins and ends with the OTHER kind of quote (a quote is a character like any other there)
   str  |-> << <<"'abc'", <<"Str", V("abc")>> >>, <<"''", <<"Str", V("")>> >>, <<"'a b'", <<"Str", V("a b")>> >>,
-              <<"'\"q\"'", <<"Str", V("\"q\"")>> >> >>,
-  wstr |-> << <<"\"wx\"", <<"Str", V("wx")>> >>, <<"\"'y'\"", <<"Str", V("'y'")>> >> >>,
+              <<"'\"q\"'", <<"Str", V("\"q\"")>> >>, <<"STRING#'tp'", <<"Str", V("tp")>> >>,
+              \* non-ASCII characters are written <HEX>: no-break space, e acute, euro sign (drivers/gram.py unmark)
+              <<"'n<A0>b<E9><20AC>'", <<"Str", V("n<A0>b<E9><20AC>")>> >>,
+              \* longer than a line of the renderer, with blanks in it
+              <<"'long text long text long text long text long text long text long text long text long text long text long text long text long text long text end'", <<"Str", V("long text long text long text long text long text long text long text long text long text long text long text long text long text long text end")>> >> >>,
+  wstr |-> << <<"\"wx\"", <<"Str", V("wx")>> >>, <<"\"'y'\"", <<"Str", V("'y'")>> >>, <<"WSTRING#\"tw\"", <<"Str", V("tw")>> >>, <<"\"w<A0><1F600>\"", <<"Str", V("w<A0><1F600>")>> >>,
+              <<"\"wide text wide text wide text wide text wide text wide text wide text wide text wide text wide text wide text wide text wide text wide text end\"", <<"Str", V("wide text wide text wide text wide text wide text wide text wide text wide text wide text wide text wide text wide text wide text wide text end")>> >> >>,
   dur  |-> << <<"T#1.5s", <<"Dur", V("1500000000")>> >>, <<"TIME#2m", <<"Dur", V("120000000000")>> >>,
               <<"T#-250ms", <<"Dur", V("-250000000")>> >>, <<"T#1d", <<"Dur", V("86400000000000")>> >>,
-              <<"t#3h", <<"Dur", V("10800000000000")>> >> >>,
-  date |-> << <<"D#2024-02-29", <<"Date", V("2024"), V("2"), V("29")>> >>, <<"DATE#1999-12-31", <<"Date", V("1999"), V("12"), V("31")>> >> >>,
+              <<"t#3h", <<"Dur", V("10800000000000")>> >>, <<"T#1.5h", <<"Dur", V("5400000000000")>> >>,
+              <<"time#-2.5m", <<"Dur", V("-150000000000")>> >>, <<"T#0.5d", <<"Dur", V("43200000000000")>> >>,
+              <<"T#-1.5MS", <<"Dur", V("-1500000")>> >>, <<"T#1_0s", <<"Dur", V("10000000000")>> >> >>,
+  date |-> << <<"D#2024-02-29", <<"Date", V("2024"), V("2"), V("29")>> >>, <<"DATE#1999-12-31", <<"Date", V("1999"), V("12"), V("31")>> >>,
+              <<"d#2000-01-01", <<"Date", V("2000"), V("1"), V("1")>> >> >>,
   tod  |-> << <<"TOD#23:59:58", <<"Tod", V("23"), V("59"), V("58"), V("0")>> >>,
-              <<"TIME_OF_DAY#01:02:03", <<"Tod", V("1"), V("2"), V("3"), V("0")>> >> >>,
+              <<"TIME_OF_DAY#01:02:03", <<"Tod", V("1"), V("2"), V("3"), V("0")>> >>,
+              <<"TOD#10:11:12.5", <<"Tod", V("10"), V("11"), V("12"), V("5")>> >>, <<"tod#00:00:00", <<"Tod", V("0"), V("0"), V("0"), V("0")>> >> >>,
   dt   |-> << <<"DT#2001-02-03-04:05:06", Dt("2001", "2", "3", "4", "5", "6")>>,
-              <<"DATE_AND_TIME#1984-06-25-15:36:55", Dt("1984", "6", "25", "15", "36", "55")>> >>,
+              <<"DATE_AND_TIME#1984-06-25-15:36:55", Dt("1984", "6", "25", "15", "36", "55")>>,
+              <<"DT#2010-10-10-10:10:10.25", DtF("2010", "10", "10", "10", "10", "10", "25")>> >>,
   bits |-> << <<"WORD#16#FFFF", <<"Bits", V("WORD"), V("65535")>> >>, <<"BYTE#2#1", <<"Bits", V("BYTE"), V("1")>> >>,
-              <<"DWORD#7", <<"Bits", V("DWORD"), V("7")>> >> >>,
+              <<"DWORD#7", <<"Bits", V("DWORD"), V("7")>> >>, <<"LWORD#16#A_B", <<"Bits", V("LWORD"), V("171")>> >>,
+              <<"BYTE#8#17", <<"Bits", V("BYTE"), V("15")>> >>, <<"WORD#0", <<"Bits", V("WORD"), V("0")>> >> >>,
   addr |-> << <<"%IX1.2", Addr("I", "X", <<"L", V("1"), V("2")>>)>>, <<"%QW4", Addr("Q", "W", <<"L", V("4")>>)>>,
               <<"%MD0", Addr("M", "D", <<"L", V("0")>>)>>, <<"%IB3", Addr("I", "B", <<"L", V("3")>>)>>,
-              <<"%ML7", Addr("M", "L", <<"L", V("7")>>)>>, <<"%I5", Addr("I", "-", <<"L", V("5")>>)>> >>,
+              <<"%ML7", Addr("M", "L", <<"L", V("7")>>)>>, <<"%I5", Addr("I", "-", <<"L", V("5")>>)>>,
+              <<"%IX1.2.3", Addr("I", "X", <<"L", V("1"), V("2"), V("3")>>)>>, <<"%QB10.20", Addr("Q", "B", <<"L", V("10"), V("20")>>)>>,
+              <<"%mx0", Addr("M", "X", <<"L", V("0")>>)>> >>,
   iaddr |-> << <<"%I*", Addr("I", "-", <<"L">>)>>, <<"%Q*", Addr("Q", "-", <<"L">>)>>, <<"%M*", Addr("M", "-", <<"L">>)>> >>,
   etype |-> << <<"INT", V("INT")>>, <<"BOOL", V("BOOL")>>, <<"REAL", V("REAL")>>, <<"TIME", V("TIME")>>, <<"DWORD", V("DWORD")>>,
                <<"SINT", V("SINT")>>, <<"LREAL", V("LREAL")>>, <<"DATE", V("DATE")>>, <<"TOD", V("TIME_OF_DAY")>>,
                <<"DT", V("DATE_AND_TIME")>>, <<"ULINT", V("ULINT")>>, <<"BYTE", V("BYTE")>>, <<"DINT", V("DINT")>>,
                <<"LINT", V("LINT")>>, <<"USINT", V("USINT")>>, <<"UINT", V("UINT")>>, <<"UDINT", V("UDINT")>>,
                <<"WORD", V("WORD")>>, <<"LWORD", V("LWORD")>>, <<"TIME_OF_DAY", V("TIME_OF_DAY")>>,
-               <<"DATE_AND_TIME", V("DATE_AND_TIME")>> >>,
+               <<"DATE_AND_TIME", V("DATE_AND_TIME")>>, <<"STRING", V("STRING")>>, <<"WSTRING", V("WSTRING")>> >>,
   itype |-> << <<"INT", V("INT")>>, <<"USINT", V("USINT")>>, <<"DINT", V("DINT")>>, <<"ULINT", V("ULINT")>>,
                <<"SINT", V("SINT")>>, <<"UINT", V("UINT")>>, <<"LINT", V("LINT")>>, <<"UDINT", V("UDINT")>> >>
 ]
@@ -121,7 +139,8 @@ ExprProds == [
   \* a minus sign before a numeric literal is the sign of the literal (B.1.2.1), so the unary minus
   \* is generated only before the other primaries
   primary_nolit |-> { Pr("", 0, <<N("variable")>>),
-                      Pr("prim:paren", 1, <<T("("), N("expr"), T(")"), R("Paren", 1)>>) },
+                      Pr("prim:paren", 1, <<T("("), N("expr"), T(")"), R("Paren", 1)>>),
+                      Pr("prim:call", 1, <<ID, T("("), N("params"), T(")"), R("Call", 2)>>) },
   primary |-> { Pr("", 0, <<N("variable")>>),
                 Pr("prim:const", 0, <<N("constant")>>),
                 Pr("prim:paren", 1, <<T("("), N("expr"), T(")"), R("Paren", 1)>>),
@@ -188,6 +207,7 @@ DeclProds == [
                  Pr("type:string", 1, <<T("STRING"), PV("STRING"), T("["), L("uint"), T("]"), N("str_init"), R("StrSpec", 3)>>),
                  Pr("type:wstring", 1, <<T("WSTRING"), PV("WSTRING"), T("["), L("uint"), T("]"), N("wstr_init"), R("StrSpec", 3)>>),
                  Pr("type:stringp", 1, <<T("STRING"), PV("STRING"), T("("), L("uint"), T(")"), N("str_init"), R("StrSpec", 3)>>),
+                 Pr("type:wstringp", 1, <<T("WSTRING"), PV("WSTRING"), T("("), L("uint"), T(")"), N("wstr_init"), R("StrSpec", 3)>>),
                  Pr("type:latebound", 1, <<ID, None, R("TRef", 2)>>),
                  Pr("type:elem", 1, <<L("etype"), None, R("TRef", 2)>>) },
   enumval    |-> { Pr("", 0, <<None, ID, R("EnumVal", 2)>>), Pr("enum:typed", 1, <<ID, Tg("#"), IDg, R("EnumVal", 2)>>) },
@@ -226,7 +246,8 @@ DeclProds == [
                    Pr("selem:subrange", 1, <<L("itype"), T("("), L("sint"), T(".."), L("sint"), T(")"), N("sint_init"), R("SubrInline", 4)>>),
                    Pr("selem:array", 1, <<N("arrspec"), N("arr_init"), R("ArrInline", 3)>>),
                    Pr("selem:structinit", 1, <<ID, T(":="), N("structinit"), R("StructInit", 2)>>),
-                   Pr("selem:string", 1, <<T("STRING"), PV("STRING"), None, None, R("StrSpec", 3)>>) }
+                   Pr("selem:string", 1, <<T("STRING"), PV("STRING"), None, N("str_init"), R("StrSpec", 3)>>),
+                   Pr("selem:wstring", 1, <<T("WSTRING"), PV("WSTRING"), None, N("wstr_init"), R("StrSpec", 3)>>) }
 ]
 
 (* B.1.4.3 variable declarations, B.1.5 program organisation units *)
@@ -285,7 +306,8 @@ PouProds == [
   locateds_r |-> { Eps, Pr("block:more", 1, <<N("located"), S, T(";"), N("locateds_r")>>) },
   loc_spec   |-> { Pr("vspec:elem", 0, <<L("etype"), None, R("TRef", 2)>>),
                    Pr("vspec:eleminit", 1, <<L("etype"), T(":="), N("constant"), R("TRef", 2)>>),
-                   Pr("vspec:ref", 1, <<ID, None, R("TRef", 2)>>) },
+                   Pr("vspec:ref", 1, <<ID, None, R("TRef", 2)>>),
+                   Pr("vspec:refinit", 1, <<ID, T(":="), N("constant"), R("TRef", 2)>>) },
   \* function_var_decls: VAR [CONSTANT] var2_init_decl ; ... END_VAR
   \* (var2_init_decl: the parser implements the var1_init_decl alternative only; arrays, structures and strings
   \*  in the VAR block of a FUNCTION are outside the supported subset)
@@ -355,7 +377,8 @@ ConfigProds == [
                                          T("END_VAR"), R("Block", 3)>>) },
   q_glob     |-> { Pr("", 0, <<None>>), Pr("q:constant", 1, <<T("CONSTANT"), PV("CONSTANT")>>), Pr("q:retain", 1, <<T("RETAIN"), PV("RETAIN")>>) },
   gdecl      |-> { Pr("", 0, <<N("names"), T(":"), N("loc_spec"), R("Group", 2)>>),
-                   Pr("global:located", 1, <<ID, T("AT"), L("addr"), T(":"), N("loc_spec"), R("LocVar", 3)>>) },
+                   Pr("global:located", 1, <<ID, T("AT"), L("addr"), T(":"), N("loc_spec"), R("LocVar", 3)>>),
+                   Pr("global:anon", 1, <<None, T("AT"), L("addr"), T(":"), N("loc_spec"), R("LocVar", 3)>>) },
   gdecls_r   |-> { Eps, Pr("block:more", 1, <<N("gdecl"), S, T(";"), N("gdecls_r")>>) },
   resource   |-> { Pr("", 0, <<T("RESOURCE"), ID, T("ON"), ID, Nil, N("gvars_opt"), Nil, N("tasks"), Nil, N("progconf"), S, T(";"),
                                N("progconfs_r"), T("END_RESOURCE"), R("Res", 5)>>) },
@@ -378,6 +401,7 @@ ConfigProds == [
                    Pr("pcsrc:direct", 1, <<L("addr")>>) },
   pc_sink    |-> { Pr("pcsink:name", 0, <<ID, R("NameRef", 1)>>),
                    Pr("pcsink:gref", 1, <<ID, Tg("."), IDg, R("GRef2", 2)>>),
+                   Pr("pcsink:gref3", 1, <<ID, Tg("."), IDg, Tg("."), IDg, R("GRef2", 3)>>),
                    Pr("pcsink:direct", 1, <<L("addr")>>) },
   varconfig_opt |-> { Eps, Pr("config:varconfig", 1, <<T("VAR_CONFIG"), N("vc"), S, T(";"), N("vcs_r"), T("END_VAR")>>) },
   vcs_r      |-> { Eps, Pr("varconfig:more", 1, <<N("vc"), S, T(";"), N("vcs_r")>>) },
